@@ -24,17 +24,29 @@ TEXT["http"] = ("The same TLC-generated and random store behaviours are executed
                 "on the unix socket; raw requests; NDJSON and SSE renderings compared) together with 34 malformed-request classes; the "
                 "recorded trace carries every response status and is validated by TLC against TraceStore (store semantics via XsProps, "
                 "status classes, 'failure changes nothing' via raw partition dumps before/after, server still answers).")
+TEXT["proc"] = ("XsHandlers / XsCommands / XsGenerators (code-layer TLA+ models of src/handlers, src/commands, src/generators: one "
+                "action per step of the serve loops, instances and tasks, restart = kill at any point + start; the code's known "
+                "deviations are named flags) are exhausted by TLC for 1-2 names x 2 contexts, <= 4 client actions, <= 1 restart with "
+                "the property statements as invariants; TLC -simulate client action lists of these models, the same lists with a "
+                "restart at every position, seeded random lists (waits between actions or none, bursts from several client threads) "
+                "and a regression list are executed against the three real serve loops wired as main.rs does, inside a worker "
+                "process that is killed / exits for a restart; the stream itself (every frame with stamps and CAS content) is the "
+                "trace and is validated by TLC against the observer spec TraceProc.")
 NOTE = {
+ "proc": "Trusted: TLC, the runner's normalisation of frames (dense ranks, content tokens), the script catalogue being deterministic. "
+         "Bounded: MC_proc_*.cfg constants; histories sampled; absence of a frame is judged after a 20-30 s wait on something owed; "
+         "ephemeral / head:N TTLs and nu modules are not in the script catalogue.",
  "http": "Trusted: the harness' raw HTTP client and response parser. Bounded: one request per connection; follow routes over HTTP are exercised separately.",
  "conc": "Trusted: TLC, the gate hooks (events are logged under one mutex after the state change), rank abstraction of ids. Bounded: MC_conc_*.cfg constants; schedules sampled.",
  "store": "Trusted: TLC, the harness' abstraction of concrete values back to model tokens, the xs_verif hooks (virtual clock, GC gate, raw dump). Bounded: model constants in spec/MC_store_*.cfg; behaviours sampled, not enumerated.",
 }
 TECH = {
+ "proc": "TLC model checking of XsHandlers/XsCommands/XsGenerators + TLC trace validation (TraceProc) of client histories executed on the real serve loops, restarts by killing the serving process",
  "http": "TLC trace validation (TraceStore + status rules) of model-generated behaviours executed over HTTP, plus malformed request classes",
  "conc": "TLC model checking of XsConcurrent + gate-scheduled replay/exploration of real threads + TLC trace validation (TraceFollow)",
  "store": "TLC model checking of XsStore + TLC trace validation (TraceStore) of replayed behaviours on the real store",
 }
-DESIGN = {"http": "DESIGN.md 5 (C13), Appendix D","conc": "DESIGN.md 3, 4.1, 5 (C02 C03 C11)", "store": "DESIGN.md 3, 4, 5 (C01 C05 C07 C08 C09 C20)"}
+DESIGN = {"proc": "DESIGN.md 3 (XsHandlers/XsGenerators/XsCommands), 5 (C14-C19), docs/proc-notes.md", "http": "DESIGN.md 5 (C13), Appendix D","conc": "DESIGN.md 3, 4.1, 5 (C02 C03 C11)", "store": "DESIGN.md 3, 4, 5 (C01 C05 C07 C08 C09 C20)"}
 
 hooks_commits = subprocess.run("git -C /repo log --format=%h --grep='^verif hooks' ", shell=True, capture_output=True, text=True).stdout.split()
 
